@@ -363,6 +363,7 @@ fn section_plans(out: &mut Out, r: &mut Rng, th: bool) {
             );
         }
         out.m(&format!("plan-from-dnm {}", svals), &sx::nums(&pl));
+        out.m(&format!("plan-from-dnm {}", svals), &sx::nums(plan_list(&p_ref)));
         // the plan built from the plan's own state
         let again: IdPlan = if r.chance(1, 2) { RewritePlan::from(p_own.get_state()) } else { RewritePlan::from(p_own.get_state().clone()) };
         let rws: Vec<Option<usize>> = (0..plen + 2)
@@ -964,22 +965,29 @@ fn section_choices(out: &mut Out, r: &mut Rng, th: bool) {
     let n = if th { 5_000 } else { 500 };
     for c in 0..n {
         let mut a: RandomChoices<u8> = RandomChoices::default();
+        // a twin with the same history: fixed hasher keys make its iteration order the same (reproducible runs)
+        let mut twin: RandomChoices<u8> = RandomChoices::default();
         let mut model: BTreeMap<String, Vec<u8>> = BTreeMap::new();
         let mut script: Vec<String> = Vec::new();
         for _ in 0..r.below(8) {
-            let key = ["k", "x", "y", "zz"][r.below(4)].to_string();
+            let key = ["k", "x", "y", "zz", "q", "w"][r.below(6)].to_string();
             if r.chance(2, 3) {
                 let ch: Vec<u8> = (0..r.below(4)).map(|_| r.below(5) as u8).collect();
                 a.insert(key.clone(), ch.clone());
+                twin.insert(key.clone(), ch.clone());
                 model.insert(key.clone(), ch.clone());
                 script.push(format!("insert {} {:?}", key, ch));
                 out.stat("choices-insert");
             } else {
                 let (x, y) = (a.remove(&key), model.remove(&key));
+                twin.remove(&key);
                 script.push(format!("remove {}", key));
                 if x != y { out.v("choices-remove", &format!("{:?}: remove gives {:?} expected {:?}", script, x, y)); }
                 out.stat("choices-remove");
             }
+        }
+        if a.map.keys().collect::<Vec<_>>() != twin.map.keys().collect::<Vec<_>>() || format!("{:?}", a) != format!("{:?}", twin) {
+            out.v("choices-default-order", &format!("{:?}: two default() maps with the same history iterate differently: {:?} vs {:?}", script, a, twin));
         }
         let got: BTreeMap<String, Vec<u8>> = a.map.iter().map(|(k, v)| (k.clone(), v.clone())).collect();
         if got != model || a.map.len() != model.len() {
